@@ -14,7 +14,7 @@ CHECKS = {
             "The evaluator uses gonnx's own operator kernels (kernel correctness is C03-C11); model.go, binding and environment handling are independent.",
             "DESIGN.md 3 C01"),
     "C02": ("model-based stateful testing (rapid state machine) with a fresh-model differential and deep snapshots",
-            "Call histories (fresh inputs, re-used tensor objects, outputs fed back, batch changes, failing calls) on generated alias-route models and the sample models; after every step outputs must be bit-identical to a freshly loaded model and caller tensors, weights and earlier outputs must be bit-identical to their snapshots.",
+            "Call histories (fresh inputs, re-used and refilled tensor objects, outputs fed back, batch changes, failing calls) on generated alias-route models, on models whose every operand is a caller-owned graph input (operator-level generators of C03-C11, large operands) and on the sample models; after every step outputs must be bit-identical to a freshly loaded model and caller tensors, weights and earlier outputs must be bit-identical to their snapshots.",
             "Needs the verif hook VerifParameters to observe weights; 'fresh model' is loaded from the same bytes by the same loader.",
             "DESIGN.md 3 C02"),
     "C03": ("property-based testing against a scalar reference model with constructed broadcast pairs (rapid)",
@@ -26,7 +26,7 @@ CHECKS = {
             "The bound is valid for any summation order; reference loops are the harness's own.",
             "DESIGN.md 3 C04"),
     "C05": ("property-based testing against a direct-convolution reference over constructed geometries (rapid)",
-            "1-D/2-D convolutions with independent per-axis extents, kernels, strides, dilations, asymmetric pads or auto_pad, bias, float32/float64; output shape exact and values within the gamma_K bound of a seven-loop float64 reference, or refused.",
+            "1-D/2-D convolutions with independent per-axis extents, kernels, strides, dilations, asymmetric pads or auto_pad, bias, float32/float64; output shape exact and values within the gamma_K bound of a seven-loop float64 reference; a refusal is accepted only for what the unchanged library does not implement (a kernel extent of 1, group != 1).",
             "Reference = ONNX output-shape and auto_pad formulas as written in the operator documentation.",
             "DESIGN.md 3 C05"),
     "C06": ("property-based testing against a float64 reference of the ONNX recurrences plus a metamorphic split relation (rapid)",
@@ -38,7 +38,7 @@ CHECKS = {
             "Reference = ONNX shape rules; contents 0,1,2,... make element order observable.",
             "DESIGN.md 3 C07"),
     "C08": ("property-based testing against ONNX index formulas over flat arrays (rapid)",
-            "Transpose/Concat/Slice/Gather/Expand over ranks 1..4 and all element types; every output element is compared with the source element the ONNX formula designates; valid requests may be refused, never answered with other data or another shape.",
+            "Transpose/Concat/Slice/Gather/Expand over ranks 1..4 and all element types; every output element is compared with the source element the ONNX formula designates; a refusal is accepted only for what the unchanged library does not implement (Slice with negative indices or steps, or an empty result), never other data or another shape.",
             "Reference index formulas are the harness's own; malformed Transpose/Concat/Gather requests lie outside the quantifier (only no-panic asserted).",
             "DESIGN.md 3 C08"),
     "C09": ("property-based testing against explicit-loop reductions and a stable softmax reference (rapid)",
@@ -70,7 +70,7 @@ CHECKS = {
             "Error kinds observed with errors.As(*ops.InputError); instances are compared behaviourally (zero-size operator structs share addresses).",
             "DESIGN.md 3 C15"),
     "C16": ("metamorphic property-based testing (batch vs rows, permutation, sub-selection) over sample and generated per-sample models (rapid)",
-            "For the sample models and generated models with a tracked batch axis, Run on any row subset must equal the batch result restricted to those rows up to rounding; includes N=1 vs N>1 and a vacuity guard (Softmax over the batch axis must be flagged).",
+            "For the sample models and generated models with a tracked batch axis, Run on any row subset must equal the batch result restricted to those rows up to rounding; includes N=1 vs N>1, normalising/saturating operators on inputs beyond the range of exp, and a vacuity guard (Softmax over the batch axis must be flagged).",
             "Generated models are restricted to continuous operators so the rounding tolerance cannot be upset by a flipped tie.",
             "DESIGN.md 3 C16"),
     "C17": ("generated concurrent workloads under the Go race detector with a sequential differential (rapid + -race)",
